@@ -158,7 +158,7 @@ PROPS = {
         "thm_module": "NutsModel.Thm.C14",
         "namespace": "NutsModel.C14",
         "theorems": ["hm_run", "hashmap_roundtrip", "warmup_before_sampling", "ar_run", "arrow_roundtrip",
-                     "store_warmup_false_omits_exactly_warmup", "nd_run", "ndarray_roundtrip", "zarr_finalize_roundtrip"],
+                     "store_warmup_false_omits_exactly_warmup", "hashmap_eq_arrow_flatten", "nd_run", "ndarray_roundtrip", "zarr_finalize_roundtrip"],
         "harness": "C14",
         "level": "proof",
         "rule": ("a real chain (Diag NUTS, LowRank NUTS, Diag MCLMC; vector draws, scalar/vector/string/event statistics; divergences from "
